@@ -1450,11 +1450,20 @@ impl<'a, 'b, W: Write> Serializer for &'a mut YamlSerializer<'b, W> {
             // The inner dashes that follow are written at a multiple of the indentation step,
             // the inlined first one two columns after the outer dash: the two only coincide for
             // a step of 2. With another step the nested sequence starts on its own line.
-            let own_line = nested_after_dash && self.indent_step != 2 && _len != Some(0);
+            // An anchor written after the outer dash ends that line too (`- &a1`), so the nested
+            // sequence starts on its own line as well; an empty one keeps its anchor inline
+            // (`- &a1 []`).
+            let anchored = self.pending_anchor_id.is_some();
+            let own_line =
+                nested_after_dash && (self.indent_step != 2 || anchored) && _len != Some(0);
             let inline_first = nested_after_dash && !own_line;
             // If we are a mapping value (space after colon was pending), we will handle
             // the newline later in SeqSer::serialize_element to keep empty sequences inline.
-            self.write_anchor_for_complex_node()?;
+            if nested_after_dash && _len == Some(0) {
+                self.write_scalar_prefix_if_anchor()?;
+            } else {
+                self.write_anchor_for_complex_node()?;
+            }
             if own_line {
                 if !self.at_line_start {
                     self.newline()?;
